@@ -21,6 +21,7 @@ func checkC12(p *Prog, r *Report) {
 
 	hs := p.ServerHandlers("MsgServer")["x/pnft"]
 	r.Floor("pnft-handlers", len(hs), 7)
+	checkNftPaginatedQueries(p, r, kp)
 	// the listings decode every token's metadata into a fresh variable (a reused target shows one token's fields in the next)
 	r.Count("in-loop-decode-targets(x/pnft)", checkLoopFreshDecode(p, r, "C12", func(fn *ssa.Function) bool { return InPkgs(fn, "x/pnft") })) // no floor: the loop may legitimately move into a generic mapper (the fixture is the control)
 	delim, okD, re, dpos := globalByteSliceLit(p, nftKeeperPath, "Delimiter")
@@ -128,6 +129,12 @@ func checkC12(p *Prog, r *Report) {
 				}
 				r.Check(ok, kp("GUARD", ek+"#no-tokens-left"), "guarded effect: a class is deleted only when x/nft reports zero supply for the same class id (no orphan tokens)", site, wit,
 					"the class delete is not dominated by GetTotalSupply(ctx, same id) == 0: tokens of a deleted denom stay readable but can be neither burned nor transferred, and a re-created denom inherits them")
+				// the key handed to the raw delete is x/nft's class key of that very id, untruncated (finding-class: fixed-size buffers)
+				if kb := staticCalleeOfTerm(p, e.Key); kb != nil {
+					okKB, whyKB := rawClassKeyBuilderShape(kb)
+					r.Check(okKB, kp("LIN", FuncName(kb)+"#key=prefix++id"), "the hand-built x/nft class key is the class prefix followed by the whole id, in a buffer sized len(prefix)+len(id)", p.FnPos(kb), whyKB,
+						FuncName(kb)+": "+whyKB+" — a bounded buffer truncates long ids, so the supply check runs on one denom and the delete hits the denom named by the truncated prefix (whose tokens are orphaned)")
+				}
 			case "nft:Update", "nft:BatchUpdate", "nft:BatchMint":
 				r.Fail(kp("WMC", ek), "a minted token's data is never rewritten", site, "token-data writer "+e.Kind+" reachable from "+hn+" via "+strings.Join(e.Chain, " -> "))
 			}
@@ -532,4 +539,51 @@ func isParamSpillOf(al *ssa.Alloc, prm *ssa.Parameter) bool {
 		}
 	}
 	return false
+}
+
+// checkNftPaginatedQueries (C12-D6, finding F16): x/nft's gRPC queries Classes and NFTs are paginated — a nil page request means
+// "the first 100 entries". Module code that needs *all* classes or tokens uses the keeper's full iterators (GetClasses,
+// GetNFTsOfClass, GetNFTsOfClassByOwner); a call of a paginated query is legitimate only as a pass-through of the caller's own page
+// request (the Denoms listing).
+func checkNftPaginatedQueries(p *Prog, r *Report, kp func(string, string) string) {
+	rule := "a paginated x/nft query is called only with the caller's own page request handed through; everything that must see all classes or tokens uses the keeper's full iterators (a nil page request silently means the first 100 entries)"
+	n := 0
+	isQH := map[*ssa.Function]bool{}
+	for _, h := range p.ServerHandlers("QueryServer")["x/pnft"] {
+		isQH[h] = true
+	}
+	for _, fn := range p.ModFuncs {
+		if !InPkgs(fn, "x/pnft") || p.IsGenerated(fn) || fn.Blocks == nil {
+			continue
+		}
+		var o *Origin
+		for _, cs := range callSites(fn) {
+			name, ok := isNftKeeperMethod(cs.Callee)
+			if cs.Callee == nil || !ok || (name != "Classes" && name != "NFTs") {
+				continue
+			}
+			n++
+			if o == nil {
+				o = NewOrigin(p, fn)
+			}
+			args := cs.Instr.Common().Args
+			var pag *Term
+			if len(args) >= 3 {
+				req := o.Of(args[2])
+				if req.Op == "addr" && len(req.Args) == 1 {
+					req = req.Args[0]
+				}
+				pag = req.Field("Pagination")
+			}
+			okP := false
+			if pag != nil && isQH[fn] {
+				// the enclosing function is the gRPC query handler itself and the page request is its own request's field
+				f, isReq := requestField(pag)
+				okP = isReq && f == "Pagination" && pag.Op == "field" && len(pag.Args) == 1 && pag.Args[0].Op == "param" && strings.HasPrefix(pag.Args[0].Name, "2:")
+			}
+			r.Check(okP, kp("ORIGIN", FuncName(fn)+"→nft."+name+"#page-request=req.Pagination"), rule, p.Pos(cs.Instr.Pos()),
+				"Pagination: request.Pagination", fmt.Sprintf("%s calls x/nft's paginated %s query with page request %v instead of its own request's Pagination: with no page request the pager returns the first 100 entries only, with a rebuilt one the pages do not tile the listing — items beyond are silently missing from the answer", FuncName(fn), name, pag))
+		}
+	}
+	r.Floor("paginated-nft-query-call-sites", n, 1)
 }
